@@ -47,7 +47,8 @@ MonLine(m) ==
   LET t == Line.act.t
       o == Line.obs
       has == fc[t] < Len(S.prog[t])
-      m1 == IF has /\ ~run[t] THEN MonBegin(m, S.prog, t, fc[t]) ELSE m
+      m0 == IF has /\ ~run[t] THEN MonBegin(m, S.prog, t, fc[t]) ELSE m
+      m1 == MonDeliver(m0, o.dl)
       op == S.prog[t][fc[t] + 1] IN
   IF has /\ o.fin THEN MonFin(m1, S.prog, t, fc[t], IF IsLocal(op) THEN o.lt ELSE op.lt) ELSE m1
 
